@@ -191,6 +191,8 @@ MUTANTS += [
          old='        if isinstance(other, Bicomplex):\n            # scale numerator', new='        if False:\n            # scale numerator'),
     dict(id='c16-undo-int-samples-fix', props=['C16'], file=FB,
          old='    du = np.zeros(np.shape(fx), dtype=np.result_type(np.asarray(fx).dtype, float))', new='    du = np.zeros_like(fx)'),
+    dict(id='c12-undo-relative-zero-divisor', props=['C12'], file=MC,
+         old='non_invertible = np.abs(self.mod_c()) <= 1e-15 * self.norm()', new='non_invertible = np.abs(self.mod_c()) < 1e-15'),
     dict(id='c12-undo-f5-expm1', props=['C12', 'C01'], file=MC,
          old="        return Bicomplex(expz1 * np.cos(self.z2) - 2 * np.sin(0.5 * self.z2) ** 2,\n                         (expz1 + 1) * np.sin(self.z2))",
          new="        return Bicomplex(expz1 * np.cos(self.z2), expz1 * np.sin(self.z2))"),
